@@ -186,6 +186,12 @@ def check_parse(s):
         # popping what it consumed) must not show in the mapping of the NEXT request with the same query string
         for r in (areq, wreq):
             try:
+                for name, value in list(r.params.items()):
+                    as_list = r.get_param_as_list(name)
+                    for lst in (value, as_list):
+                        if isinstance(lst, list):  # a responder sorting / consuming the list it was handed
+                            lst.reverse()
+                            lst.append('vf-appended-by-an-earlier-request')
                 r.params['vf_injected'] = 'by-an-earlier-request'
                 for name in list(exp.values)[:1]:
                     r.params.pop(name, None)
@@ -834,7 +840,52 @@ class FuzzQuery(Suite):
         return parse_info(s, sorted(extra))
 
 
-SUITES = [EnumShort(), RandomLong(), TypedGetters(), RoundTrip(), FuzzQuery()]
+class Huge(Suite):
+    """Sizes and counts beyond the moderate range: one value of 64 KiB - 1 MiB (escaped multi-byte units at every alignment,
+    so that a character's escapes straddle any internal block boundary), 300-20000 fields, one name repeated thousands of
+    times, comma lists of thousands of items; same oracle as random_long under all 4 option combinations."""
+
+    name = 'huge'
+    exhaustive = True
+    budget = {'quick': 1, 'thorough': 1}
+
+    def cases(self, tier):
+        for unit in ('%C3%A9', '%E2%82%AC', '%F0%9F%98%80', '\u00e9', 'a%2Cb,', '+%26', 'xy'):
+            for pad in (0, 1, 2, 3):
+                for nbytes in ((70000, 140000) if tier == 'quick' else (66000, 70000, 140000, 270000, 1100000)):
+                    yield {'shape': 'value', 'pad': pad, 'unit': unit, 'nbytes': nbytes}
+        for n in ((300, 1025, 5000) if tier == 'quick' else (300, 1024, 1025, 5000, 20000)):
+            for shape in ('fields', 'repeat', 'csv', 'blanks'):
+                yield {'shape': shape, 'n': n}
+
+    @staticmethod
+    def build(case):
+        shape = case['shape']
+        if shape == 'value':
+            unit = case['unit']
+            decoded = len(urllib.parse.unquote_to_bytes(unit))
+            return 'k=' + 'x' * case['pad'] + unit * (case['nbytes'] // max(decoded, 1) + 1) + '&last=%C3%A9'
+        n = case['n']
+        if shape == 'fields':
+            return '&'.join('k%d=v%%2C%d' % (i, i) for i in range(n))
+        if shape == 'repeat':
+            return '&'.join('id=%d' % ((i * 7919) % n) for i in range(n))
+        if shape == 'csv':
+            return 'id=' + ','.join(str((i * 7919) % n) for i in range(n)) + '&other=1,,2'
+        return '&'.join(('b%d=' % i if i % 3 else 'b%d' % i) for i in range(n)) + '&z=1'
+
+    def run(self, case):
+        s = self.build(case)
+        try:
+            extra = check_parse(s)
+        except Violation as v:
+            d = v.detail
+            raise Violation(v.kind, '%s ... %s\n  for the query string built from %r (%d characters)' % (d[:300], d[-400:], case, len(s)))
+        return Info(True, sorted(extra) + ['shape:' + case['shape'], 'len:%s' % ('>=64K' if len(s) >= 65536 else '<64K')])
+
+
+
+SUITES = [EnumShort(), RandomLong(), TypedGetters(), RoundTrip(), Huge(), FuzzQuery()]
 
 
 def _known_f7(suite_name, case, violation):
